@@ -2,12 +2,13 @@
    it sign a fork. EvTamper k o (any object replaced by anything, or deleted) may occur anywhere
    in the event list, between and during runs of any number of instances.
    Proved: whatever is done to object storage, the checkpoints committed to the lock store still
-   form one append-only chain, and every published checkpoint was committed first.
+   form one append-only chain, every published checkpoint was committed first, every running
+   instance holds exactly a committed tree, and what it is about to sign extends that tree.
    Level: the load-time authentication of the right-edge tiles (tlog.TileHashReader, per-leaf
    re-hash) enters the model as the SPECIFICATION of a verifying reader (accept exactly the
    tiles of the tree the lock checkpoint commits to); that the real reader meets it is what the
    tamper stream of the correspondence harness tests. Hence "C08_partial". *)
-From SL Require Import Ctlog.Model Ctlog.Spec Ctlog.Theorems.
+From SL Require Import Ctlog.Model Ctlog.Spec Ctlog.Theorems Ctlog.Example.
 
 Theorem C08_partial : forall (sha : bytes -> bytes) (evs : list ev),
   let w := run sha evs init in
@@ -18,6 +19,36 @@ Proof.
 Qed.
 Print Assumptions C08_partial.
 
+(* "continues from exactly the tree committed in the lock store": for every event list, tampering
+   anywhere included, an instance that is idle or in a round holds a committed (checkpoint, leaf
+   sequence) pair, equal to its lock checkpoint *)
+Theorem C08_running_instance_holds_committed_tree : forall (sha : bytes -> bytes) evs i x,
+  get_inst (w_insts (run sha evs init)) i = Some x ->
+  (i_pc x = PIdle \/ exists ph, i_pc x = PRound ph) ->
+  In (i_tree x, i_leaves x) (w_lockhist (run sha evs init)) /\ i_tree x = i_lockcp x.
+Proof. exact running_instance_holds_committed_tree. Qed.
+Print Assumptions C08_running_instance_holds_committed_tree.
+
+(* "any checkpoint it signs afterwards extends that tree": the checkpoint an instance is about to
+   upload-stage / compare-and-swap commits to an extension of its committed leaf sequence *)
+Theorem C08_next_checkpoint_extends_committed_tree : forall (sha : bytes -> bytes) evs i x,
+  get_inst (w_insts (run sha evs init)) i = Some x ->
+  (i_pc x = PRound RStaging \/ i_pc x = PRound RCas) ->
+  prefix (i_leaves x) (r_all (i_rctx x)) /\
+  wfcp sha (r_new (i_rctx x)) (r_all (i_rctx x)) /\
+  (cp_ts (i_tree x) < cp_ts (r_new (i_rctx x)))%Z /\
+  In (i_tree x, i_leaves x) (w_lockhist (run sha evs init)).
+Proof. exact next_checkpoint_extends_committed_tree. Qed.
+Print Assumptions C08_next_checkpoint_extends_committed_tree.
+
 (* non-vacuity: tampering is an ordinary event of the quantified-over event lists *)
 Example C08_tamper_is_an_event : exists e : ev, e = EvTamper k_checkpoint None.
 Proof. eexists; reflexivity. Qed.
+
+(* non-vacuity: an instance about to compare-and-swap a new checkpoint, in a history that has a
+   tampering event in the middle *)
+Example C08_instance_in_cas_after_tampering :
+  let evs := firstn 12 history1 ++ [EvTamper (s2b "tile/0/000") (Some (OB [x01]))] ++ firstn 4 (skipn 12 history1) in
+  exists x, get_inst (w_insts (run toy_sha evs init)) 0 = Some x /\ i_pc x = PRound RCas /\
+            r_all (i_rctx x) <> i_leaves x.
+Proof. cbv zeta. eexists. vm_compute. repeat split; try reflexivity. discriminate. Qed.
